@@ -18,6 +18,9 @@ class Findings(list):
         self.append((rule, node, fn, what, status, detail, key))
 
 
+FILTERS = {}
+
+
 def provenance(fn, var, depth=0):
     """which (kind, tuple variable) a container variable is filled from: ('cyc', T) for the cycle component of the
     (cycle, weight, found) triple T, or ('var', X)"""
@@ -48,7 +51,30 @@ def provenance(fn, var, depth=0):
                 for d in (lv.walk() if lv is not None else ()):
                     if d.k == 'VarDecl':
                         lvid = d.decl_id
-                if lvid is not None and ex.var_of(n.args()[-1]) == lvid:
+                arg = n.args()[-1]
+                direct = lvid is not None and ex.var_of(arg) == lvid
+                if lvid is not None and not direct:
+                    # insert(index(e)) / const idx = index(e); insert(idx): a per-element conversion of the loop variable
+                    a1 = arg.strip_all()
+                    av = ex.var_of(a1)
+                    if av is not None:
+                        d1 = ex.unique_def(fn, av)
+                        a1 = d1.strip_all() if d1 is not None else a1
+                    if a1.k in ('CXXOperatorCallExpr', 'CXXMemberCallExpr', 'CallExpr') and \
+                            [x for x in a1.walk() if x.k == 'DeclRefExpr' and x.decl_id is not None and x.decl_id == lvid] and \
+                            len([x for x in a1.walk() if x.k == 'DeclRefExpr' and x.decl_id is not None and x.prog.vars[x.decl_id].get('kind') in ('local', 'param')
+                                 and x.decl_id != lvid and 'ForestIndex' not in (x.tname or '')]) == 0:
+                        direct = True
+                if direct:
+                    # a filter on the inserted elements makes the copy partial: recognised only as `index < bound`
+                    g = n.parent
+                    filt = []
+                    while g is not None and g is not lp:
+                        if g.k in ('IfStmt', 'ConditionalOperator', 'SwitchStmt'):
+                            filt.append(g)
+                        g = g.parent
+                    if filt:
+                        FILTERS.setdefault(var, []).extend((n, g) for g in filt)
                     rng = lp.role('range')
                     for d in (rng.walk() if rng is not None else ()):
                         if d.k == 'VarDecl' and d.c:
@@ -161,10 +187,27 @@ def support_update(prog, fn, loopinfo):
         for n in b2.walk():
             if n.k == 'CXXOperatorCallExpr' and n.op == '+=' and len(n.c) == 3:
                 l, r = n.c[1].strip_all(), n.c[2].strip_all()
+                for ff in (f2, fn):
+                    if l.k == 'DeclRefExpr':
+                        l = ex.alias_of(ff, l)
+                    if r.k == 'DeclRefExpr':
+                        r = ex.alias_of(ff, r)
                 if l.k == 'CXXOperatorCallExpr' and l.op == '[]' and r.k == 'CXXOperatorCallExpr' and r.op == '[]' and \
                         'SpVecGF2' in (prog.base_type(l.j.get('t')) or {}).get('canon', ''):
                     cands.append((f2, n, l, r, sc[2] if len(sc) > 2 else None))
+                elif 'SpVecGF2' in (prog.base_type(n.c[1].strip_all().j.get('t')) or {}).get('canon', ''):
+                    OTHER_UPDATES.append(n)
+            elif n.k in ('CallExpr', 'CXXMemberCallExpr') and n.callee and n.callee.get('in_repo'):
+                # a repo helper that receives support vectors by mutable reference may hide the update
+                for pt in n.callee.get('params', []):
+                    ty = prog.type(pt) or {}
+                    if ty.get('ref') and 'SpVecGF2' in ty.get('canon', '') and not (prog.base_type(pt) or {}).get('const') and \
+                            'const' not in ty.get('canon', '').split('SpVecGF2')[0]:
+                        OTHER_UPDATES.append(n)
     return k, cands
+
+
+OTHER_UPDATES = []
 
 
 def analyse(prog):
@@ -240,7 +283,11 @@ def analyse_phase(prog, F, fn, info):
     # ------------------------------------------------------------ provenance of emitted set, update set, weight
     emitted = emit.c[2]
     ev = ex.var_of(emitted)
+    FILTERS.pop(ev, None)
     T_emit = provenance(fn, ev) if ev is not None else source_of(fn, emitted)
+    if ev is not None and FILTERS.get(ev):
+        F.add('R01c', emit, fn, 'the emitted list is the whole cycle found by the search', 'undecided',
+              'the emitted list is filled under a filter at line %d' % FILTERS[ev][0][1].line, key='R01c|%s|filtered' % fn.g)
     # R02a
     whatw = 'the returned value is increased once per phase by the weight of the very cycle that is emitted'
     rets = ex.returns_of(fn)
@@ -288,9 +335,10 @@ def analyse_phase(prog, F, fn, info):
 
     # ------------------------------------------------------------ R01b orthogonalisation update
     whatb = 'after phase k every later support vector with odd intersection with the emitted cycle gets support[k] added'
+    del OTHER_UPDATES[:]
     kvar, cands = support_update(prog, fn, info)
     if len(cands) != 1:
-        F.add('R01b', loop, fn, whatb, 'violation' if not cands else 'undecided',
+        F.add('R01b', loop, fn, whatb, 'violation' if not cands and not OTHER_UPDATES else 'undecided',
               '%d candidate update statements `support[l] += support[k]` in the phase loop' % len(cands), key='R01b|%s|missing' % fn.g)
         return
     f2, upd, l, r, pcall = cands[0]
@@ -379,8 +427,22 @@ def analyse_phase(prog, F, fn, info):
                 continue
             if f2 is not fn or loop.body.is_ancestor_of(cn):
                 probs.append('the update additionally depends on `%s`' % cn.text(40))
+    unrec = []
     if 'v' in Cvar and Cvar['v'] is not None:
+        FILTERS.pop(Cvar['v'], None)
         T_c = provenance(fn, Cvar['v'])
+        for (ins, g) in FILTERS.get(Cvar['v'], []):
+            # dropping indices >= cycle space dimension is invisible to support vectors, which live in [0, csd)
+            okf = False
+            if g.k == 'IfStmt' and g.cond is not None and g.then is not None and (g.then is ins or g.then.is_ancestor_of(ins)):
+                c = g.cond.strip_all()
+                if c.k == 'BinaryOperator' and c.op in ('<', '>'):
+                    small, big = (c.c[0], c.c[1]) if c.op == '<' else (c.c[1], c.c[0])
+                    if ex.var_of(big) == info['csd'] and ex.key(small) == ex.key(ins.args()[-1]):
+                        okf = True
+            if not okf:
+                unrec.append('the index set tested against support[l] is a filtered copy of the cycle (`%s`, line %d): filter not understood' % (
+                    g.cond.text(30) if getattr(g, 'cond', None) is not None else g.k, g.line))
         if T_c is None or T_c[0] != 'cyc':
             probs.append('the index set tested against support[l] is not converted from the cycle found in this phase')
         elif T_emit is not None and T_emit[0] == 'cyc' and T_c[1] != T_emit[1]:
@@ -392,6 +454,8 @@ def analyse_phase(prog, F, fn, info):
         probs.append('the emitted list is not built from the cycle component of the search result (%s)' % describe(prog, T_emit))
     if probs:
         F.add('R01b', upd, fn, whatb, 'violation', '; '.join(sorted(set(probs))), key='R01b|%s|update' % fn.g)
+    elif unrec:
+        F.add('R01b', upd, fn, whatb, 'undecided', '; '.join(sorted(set(unrec))), key='R01b|%s|update' % fn.g)
     else:
         F.add('R01b', upd, fn, whatb, 'ok', 'for l in k+1..csd: if (support[l] * C == 1) support[l] += support[k], C and the emitted list from the same search result')
 
@@ -795,10 +859,11 @@ def analyse_searches(prog, F):
             if n.k == 'CXXMemberCallExpr' and n.callee and n.callee['name'] == 'erase' and n.args():
                 hv = ex.var_of(n.object_arg())
                 a0 = n.args()[0].strip_all()
-                if hv is None or not (a0.k == 'CXXMemberCallExpr' and a0.callee['name'] == 'begin' and ex.var_of(a0.object_arg()) == hv):
-                    continue
                 loop = n.enclosing('ForStmt', 'WhileStmt', 'CXXForRangeStmt')
-                if loop is None or loop.body is None:
+                if loop is None or loop.body is None or hv is None:
+                    continue
+                first_elem = a0.k == 'CXXMemberCallExpr' and a0.callee['name'] == 'begin' and ex.var_of(a0.object_arg()) == hv
+                if not (first_elem or is_current_element(fn, a0, loop)):
                     continue
                 # is the set passed to a search in this loop?
                 searches = [m for m in loop.body.walk() if m.k == 'CallExpr' and m.callee and m.callee['g'] == 'parmcb::bidirectional_signed_dijkstra'
@@ -815,6 +880,31 @@ def analyse_searches(prog, F):
                     F.add('R02f', n, fn, what, 'violation',
                           'some path through the loop body (continue / early exit) skips `%s`: the hidden set then lags behind the '
                           'iteration and a later search hides the wrong edges' % n.text(40), key='R02f|%s|skipped-erase' % fn.g)
+
+
+def is_current_element(fn, a, loop):
+    """is `a` the element the loop is currently visiting: the range-for variable, `*it` of the loop iterator, or a local
+    defined once as one of those"""
+    a = a.strip_all()
+    v = ex.var_of(a)
+    if v is not None:
+        if loop.k == 'CXXForRangeStmt':
+            lv = loop.role('loopvar')
+            for d in (lv.walk() if lv is not None else ()):
+                if d.k == 'VarDecl' and d.decl_id == v:
+                    return True
+        d = ex.unique_def(fn, v)
+        if d is not None and loop.is_ancestor_of(d):
+            return is_current_element(fn, d, loop)
+        return False
+    if a.k in ('UnaryOperator', 'CXXOperatorCallExpr') and a.op == '*':
+        it = ex.var_of(a.c[-1])
+        if it is not None and loop.k == 'ForStmt':
+            iv = loop_header(loop)[0] if loop.cond is not None else None
+            hdr = [x for x in (loop.c[0].walk() if loop.c else ()) if x.k == 'VarDecl' and x.decl_id == it]
+            if hdr or iv == it:
+                return True
+    return False
 
 
 def post_dominates_within(cfg, b, entry, loop):
